@@ -705,6 +705,8 @@ FAMS = {
           "G: a = any of 22 leaves, b and c = [user]|[user,employee] optionally op (y|z) (22 x 14 x 14 = 4312 models)"),
     "H": ({"R": 2, "L10": LEAVES_ALL, "L11": LEAVES_ALL}, "H: two relations, all 22 leaves each (incl. multi-userset, wildcard+userset, conditioned restrictions) (400 models after de-duplication)"),
     "J": ({"R": 2, "PARENTS": 3, "L10": M(0, 16, 19, 21), "L20": M(16, 19), "L11": M(0, 1, 4, 19)}, "J: tupleset p: [doc, doc with k, org] (duplicate conditioned parent followed by another parent)"),
+    "J4": ({"R": 2, "PARENTS": 4, "L10": M(0, 16, 19, 21), "L20": M(16, 19, 21), "L11": M(0, 1, 4, 19)}, "J4: tupleset p: [org, org with k, doc] (the own type listed after a duplicate conditioned parent)"),
+    "J5": ({"R": 2, "PARENTS": 5, "L10": M(0, 16, 19, 21), "L20": M(16, 19), "L11": M(0, 1, 4, 19)}, "J5: tupleset p: [doc, doc with k, bare] (last parent type defines no relation)"),
     "K": ({"R": 2, "L10": M(0, 1, 7, 8, 13, 14, 15), "L20": M(16, 19), "REV0": 1, "L11": M(0, 4, 16)}, "K: swapped operand order (computed userset before the direct assignment), conditioned/duplicate restrictions"),
     "N": ({"R": 3, "L10": M(16, 17), "L20": M(16, 17), "OP0": 2, "L11": M(0, 1), "L21": M(21), "OP1": 1, "L12": M(0, 1)},
           "N: a = y | z | y and z | z and y, b = [user]|[user,employee] optionally `or b from p` (recursive), c = [user]|[user,employee] (48 models)"),
@@ -749,15 +751,15 @@ def kernels():
 
 
 RA, RR, FI, AL = (ROOT_ALL, "all root orders of AssignWeights"), (ROOT_ROT, "every start node of AssignWeights (rotations + reverse)"), (FIRST, "first order"), (ALL, "all orders of all maps")
-THOROUGH_GRAPH = [("Q", *RR), ("N", *RA), ("B", *RA), ("D", *FI), ("E", *RA), ("P", *RA), ("A", *AL), ("G", *RR), ("H", *RA), ("K", *RA), ("L", *RA), ("J", *RR)]
+THOROUGH_GRAPH = [("J4", *RR), ("J5", *RR), ("Q", *RR), ("N", *RA), ("B", *RA), ("D", *FI), ("E", *RA), ("P", *RA), ("A", *AL), ("G", *RR), ("H", *RA), ("K", *RA), ("L", *RA), ("J", *RR)]
 
 
 def c04(tier):
-    graph_check("C04", 4, tier, [("B", *FI), ("J", *FI), ("K", *FI), ("Q", *FI), ("N", *RA), ("H", *RR), ("L", *RR), ("C", *RA)], THOROUGH_GRAPH, extra_jobs=kernels())
+    graph_check("C04", 4, tier, [("B", *FI), ("J", *FI), ("J4", *FI), ("K", *FI), ("Q", *FI), ("N", *RA), ("H", *RR), ("L", *RR), ("C", *RA)], THOROUGH_GRAPH, extra_jobs=kernels())
 
 
 def c05(tier):
-    graph_check("C05", 5, tier, [("A", *AL), ("B", *FI), ("G", *RR), ("L", *RR), ("H", *RR)], THOROUGH_GRAPH, reach=["accepted", "rejected"])
+    graph_check("C05", 5, tier, [("A", *AL), ("B", *FI), ("J", *FI), ("J4", *FI), ("J5", *FI), ("Q", *FI), ("G", *RR), ("L", *RR), ("H", *RR)], THOROUGH_GRAPH, reach=["return"])
 
 
 def c06(tier):
@@ -767,7 +769,7 @@ def c06(tier):
 
 
 def c10(tier):
-    graph_check("C10", 10, tier, [("B", *FI), ("P", *FI), ("J", *FI), ("K", *FI), ("H", *FI), ("G", *FI), ("Q", *FI)], [("D", *FI), ("E", *FI), ("P", *RA), ("L", *FI), ("G", *FI), ("H", *FI), ("J", *FI), ("K", *FI)])
+    graph_check("C10", 10, tier, [("B", *FI), ("P", *FI), ("J", *FI), ("J4", *FI), ("J5", *FI), ("K", *FI), ("H", *FI), ("G", *FI), ("Q", *FI)], [("D", *FI), ("E", *FI), ("P", *RA), ("L", *FI), ("G", *FI), ("H", *FI), ("J", *FI), ("K", *FI)])
 
 
 def c11(tier):
